@@ -216,6 +216,12 @@ func (conn *diskConn) close() []*diskTrack {
 	conn.originLocal = time.Time{}
 	conn.originRemote = 0
 
+	// Flush all tracks before closing any writer: flushing a video
+	// track may open the file, which creates writers for all tracks.
+	for _, t := range conn.tracks {
+		t.writeBuffered(true)
+	}
+
 	tracks := make([]*diskTrack, 0, len(conn.tracks))
 	for _, t := range conn.tracks {
 		t.writeBuffered(true)
